@@ -159,6 +159,11 @@ func Yield() {
 	s.park(s.me(), &op{desc: "yield", alts: func() []int { return []int{0} }, do: func(int) {}})
 }
 
+// PostReleasePoints adds a scheduling point right after releasing operations
+// (mutex unlock, sync.Pool.Put) — needed where code may touch shared state
+// after the release; set by PairPrograms.
+var PostReleasePoints bool
+
 // Touch is the scheduling point vrewrite -globals inserts before a statement
 // that mentions a written package-level variable. Outside a controlled
 // execution (package initialisation, reference computations) it does nothing.
